@@ -467,8 +467,10 @@ pub fn scan(src: &str) -> Scan {
                     link_stack.push(idx);
                 }
                 Tag::Image {
-                    dest_url, title, ..
+                    dest_url, title, link_type, ..
                 } => {
+                    // ("![[image.png\|200]]" in a table cell: the backslash that escapes the pipe is no part of the name)
+                    let dest_url = if matches!(link_type, LinkType::WikiLink { has_pothole: true }) { dest_url.trim_end_matches('\\').to_string() } else { dest_url.to_string() };
                     ensure_inline_block!(range);
                     if inline_depth == 0 {
                         open.as_mut().unwrap().atom.top_inlines += 1;
@@ -644,8 +646,9 @@ pub fn is_internal(dest: &str) -> bool {
         return false;
     }
     match dest.find(':') {
-        // (what holds white space is no address: a note called "Re: budget")
-        Some(n) if n > 1 && !dest.contains(char::is_whitespace) => {
+        // (a colon directly followed by white space, or by nothing, belongs to a name: "Re: budget"; an address may hold a
+        // space further on and is then written between angle brackets)
+        Some(n) if n > 1 && dest[n + 1..].chars().next().map(|c| !c.is_whitespace()).unwrap_or(false) => {
             let scheme = &dest[..n];
             let first = scheme.chars().next().unwrap();
             !(first.is_ascii_alphabetic() && scheme.chars().all(|c| c.is_ascii_alphanumeric() || c == '+' || c == '-' || c == '.'))
@@ -716,7 +719,13 @@ pub fn relativize(key: &str, dir: &str) -> String {
     for s in &k[common..] {
         out.push(s.to_string());
     }
-    out.join("/")
+    let url = out.join("/");
+    // a name that reads like an address or an anchor ("topic:n5", "#inbox"), linked from its own directory: "./" in front
+    // keeps it the name of a note
+    if !url.is_empty() && !is_internal(&url) {
+        return format!("./{}", url);
+    }
+    url
 }
 
 /// plain title of a note: text of its first block iff that block is a heading
